@@ -237,6 +237,9 @@ def _gen_leaf(rng, cfg, i, T, creatable=False, syncable=False):
             return ["const", rng.randint(0, 9)]
         return ["item", rng.randint(0, cfg["kinds"] - 1), rng.randint(0, cfg["keys"] - 1)]
     r -= cfg["p_item"]
+    if r < cfg.get("p_dd", 0.0):
+        return ["dd", rng.randint(0, 2)]
+    r -= cfg.get("p_dd", 0.0)
     if r < cfg["p_ref"] and not creatable:
         return ["ref", rng.randint(0, 7)]
     r -= cfg["p_ref"]
